@@ -45,42 +45,64 @@ def _values_by_schema(schema, vals):
 
 
 def playback(prop, r, group):
-    """Re-run the failing harness with --concrete-playback=inplace on the build copy, then execute the
-    generated test natively."""
+    """Kani concrete playback, out of place.  The failing harness is re-run with
+    --concrete-playback=print; every printed unit test (one per failed check and per satisfied cover)
+    is put into a `#[cfg(test)] mod verif_playback` appended to the build copy's lib.rs, calling the
+    harness by its crate path, and executed natively with `cargo kani playback`.  (Kani's own
+    `inplace` mode inserts the test at the harness's source location, which for macro-generated
+    harnesses is the macro definition: every expansion then defines the same test and the crate no
+    longer compiles.)  The counterexample reproduces if at least one of the tests fails natively."""
     spec = r["spec"]
-    res = kanirun.run_job(group, r["harness"], mode=spec.mode, timeout_s=spec.timeout * 2, mem_gb=spec.mem, fs=spec.fs,
-                          extra=["-Z", "concrete-playback", "--concrete-playback=inplace"])
-    tests = re.findall(r"- (kani_concrete_playback_\w+)", res.get("log_tail", "") or "")
-    if not tests:
+    res = kanirun.run_job(group, r["harness"], mode=spec.mode, timeout_s=spec.timeout * 3, mem_gb=max(spec.mem + 6, 36), fs=spec.fs,
+                          playback=True)
+    srcs = res.get("playback_srcs") or []
+    if not srcs:
         return {"reproduced": False, "detail": "Kani produced no concrete playback test (class=%s)" % res["class"], "path": None}
-    # Kani emits one test per failed check and per satisfied cover; run them all: the counterexample
-    # reproduces if at least one of them fails natively
-    test = "kani_concrete_playback_"
-    env = dict(kanirun.ENV)
-    env["CARGO_TARGET_DIR"] = os.path.join(group.dir, "target-playback")
-    outs = {}
-    reproduced = True
-    for prof, extra_env in (("dev", {}), ("release-like", {"CARGO_PROFILE_DEV_OPT_LEVEL": "3",
-                                                            "CARGO_PROFILE_DEV_DEBUG_ASSERTIONS": "false",
-                                                            "CARGO_PROFILE_DEV_OVERFLOW_CHECKS": "false"})):
-        e = dict(env)
-        e.update(extra_env)
-        rc, out = kanirun.sh(["cargo", "kani", "playback", "-Z", "concrete-playback", "--", test], cwd=group.dir,
-                             timeout=1200, env=e)
-        failed = ("test result: FAILED" in out) or ("panicked at" in out)
-        ran = "test result:" in out
-        outs[prof] = {"rc": rc, "test_failed": failed, "ran": ran, "tail": out[-1500:]}
-        if prof == "dev" and not failed:
-            reproduced = False
-    shutil.rmtree(env["CARGO_TARGET_DIR"], ignore_errors=True)
-    src = res.get("playback_src")
-    path = _save(prop, r, {"kind": "playback", "test": tests, "native_runs": outs,
+    fq = "crate::" + r["harness"]
+    bare = r["harness"].split("::")[-1]
+    tests, body = [], []
+    for i, src in enumerate(srcs):
+        m = re.search(r"fn (kani_concrete_playback_\w+)\(\)", src)
+        if not m:
+            continue
+        name = "%s_v%d" % (m.group(1), i)
+        t = src.replace(m.group(1) + "()", name + "()")
+        t = re.sub(r"kani::concrete_playback_run\(\s*concrete_vals\s*,\s*%s\s*\)" % re.escape(bare), "kani::concrete_playback_run(concrete_vals, %s)" % fq, t)
+        tests.append(name)
+        body.append(t)
+    if not tests:
+        return {"reproduced": False, "detail": "could not parse Kani's playback tests", "path": None}
+    lib = os.path.join(group.dir, "src", "lib.rs")
+    orig = open(lib).read()
+    outs, reproduced = {}, True
+    try:
+        with open(lib, "w") as f:
+            f.write(orig + "\n#[cfg(test)]\nmod verif_playback {\n" + "\n".join(body) + "\n}\n")
+        env = dict(kanirun.ENV)
+        env["CARGO_TARGET_DIR"] = os.path.join(group.dir, "target-playback")
+        for prof, extra_env in (("dev", {}), ("release-like", {"CARGO_PROFILE_DEV_OPT_LEVEL": "3",
+                                                                "CARGO_PROFILE_DEV_DEBUG_ASSERTIONS": "false",
+                                                                "CARGO_PROFILE_DEV_OVERFLOW_CHECKS": "false"})):
+            e = dict(env)
+            e.update(extra_env)
+            rc, out = kanirun.sh(["cargo", "kani", "playback", "-Z", "concrete-playback", "--", "verif_playback"], cwd=group.dir,
+                                 timeout=1800, env=e)
+            ran = "test result:" in out
+            failed = ran and ("test result: FAILED" in out)
+            outs[prof] = {"rc": rc, "ran": ran, "test_failed": failed, "tail": out[-1500:]}
+            if prof == "dev" and not failed:
+                reproduced = False
+        shutil.rmtree(env["CARGO_TARGET_DIR"], ignore_errors=True)
+    finally:
+        with open(lib, "w") as f:
+            f.write(orig)
+    path = _save(prop, r, {"kind": "playback", "tests": tests, "test_source": "\n".join(body)[:20000], "native_runs": outs,
                            "how_to_rerun": "./check %s --replay <this file>" % prop})
-    # restore the pristine generated sources
-    group.materialized = False
-    group.materialize()
-    return {"reproduced": reproduced, "path": path, "detail": "native playback tests %s: %s" % (
-        ",".join(tests)[:120], "FAILED as the solver predicted" if reproduced else "passed (did not reproduce)")}
+    if not outs.get("dev", {}).get("ran"):
+        detail = "the playback tests did not build or run natively: " + outs.get("dev", {}).get("tail", "")[-300:]
+    else:
+        detail = "native playback of %d test(s): %s" % (len(tests), "FAILED as the solver predicted" if reproduced else "passed (did not reproduce)")
+    return {"reproduced": reproduced, "path": path, "detail": detail}
 
 
 def native(prop, r, group, recipe, seed):
@@ -184,17 +206,28 @@ def run_recipe(recipe, args):
 
 
 def confirm(prop, r, seed):
+    """Native confirmation of a counterexample.  Order: the harness's native recipe over the REAL crates
+    (if it has one); if that does not reproduce (the recipe demonstrates a particular mechanism, e.g. the
+    PBKW nonce path, and the counterexample may come from another), or if there is no recipe, Kani's
+    concrete playback of the harness itself: the solver's values are replayed natively through the real
+    paseto-rs code of the harness crate, with the primitives still the model crates."""
     import specs
     spec = r["spec"]
     group = specs.group(spec.group)
+    first = None
     try:
-        if spec.replay == "playback":
-            return playback(prop, r, group)
         if spec.replay.startswith("native:"):
-            return native(prop, r, group, spec.replay.split(":", 1)[1], seed)
+            first = native(prop, r, group, spec.replay.split(":", 1)[1], seed)
+            if first["reproduced"]:
+                return first
+        rep = playback(prop, r, group)
+        if first is not None and not rep["reproduced"]:
+            rep["detail"] = "native recipe: %s; playback: %s" % (first.get("detail", ""), rep.get("detail", ""))
+        elif first is not None:
+            rep["detail"] = "native recipe did not reproduce (%s); %s" % (first.get("detail", ""), rep.get("detail", ""))
+        return rep
     except Exception as e:  # machinery fault
         return {"reproduced": False, "detail": "replay machinery error: %r" % (e,), "path": None}
-    return {"reproduced": False, "detail": "no replay recipe", "path": None}
 
 
 def rerun(path):
